@@ -14,6 +14,8 @@ from pyvc.units import Setup, Unit
 
 def pc_setup(ctx):
     skip_validation = ctx.choose(2, "skip_validation") == 1
+    env_arg = [None, True, False][ctx.choose(3, "env")]
+    default_env = ctx.choose(2, "_default_env") == 1
     with_meta = [None, True, False][ctx.choose(3, "with_meta")]
     default_meta = ctx.choose(2, "_default_meta") == 1
     log = ctx.events
@@ -28,17 +30,17 @@ def pc_setup(ctx):
     self = Rec("ArgumentParser", attrs={"_default_meta": default_meta, "_logger": Rec("Logger", methods={"debug": lambda c, s_, a, k: None}), "parser_mode": "yaml"},
                methods={"validate": validate})
     calls = {
-        "_ActionSubCommands.handle_subcommands": lambda c, a, k: c.event("handle_subcommands", a[1]),
+        "_ActionSubCommands.handle_subcommands": lambda c, a, k: c.event("handle_subcommands", a[1], dict(k)),
         "ActionLink.apply_parsing_links": lambda c, a, k: c.event("apply_links", a[1]),
         "_ActionPrintConfig.print_config_if_requested": lambda c, a, k: c.event("print_config?", a[1]),
         "strip_meta": lambda c, a, k: (c.event("strip_meta", a[0]), stripped)[1],
         "ActionTypeHint.add_sub_defaults": lambda c, a, k: c.event("sub_defaults", a[1]),
         "lenient_check.get": lambda c, a, k: False,
     }
-    self.attrs["_default_env"] = False
+    self.attrs["_default_env"] = default_env
     self.methods["error"] = lambda c, s_, a, k: (_ for _ in ()).throw(PyRaise(ExcVal("ArgumentError", origin="self.error")))
-    env = {"self": self, "cfg": the_cfg, "skip_subcommands": False, "env": None, "defaults": True, "with_meta": with_meta, "skip_validation": skip_validation, "skip_required": False, "fail_no_subcommand": True}
-    return Setup(env=env, calls=calls, cms={"parser_context": noop_cm("parser_context")}, data=dict(cfg=the_cfg, stripped=stripped, skip_validation=skip_validation, keep_meta=(with_meta is True or (with_meta is None and default_meta))))
+    env = {"self": self, "cfg": the_cfg, "skip_subcommands": False, "env": env_arg, "defaults": True, "with_meta": with_meta, "skip_validation": skip_validation, "skip_required": False, "fail_no_subcommand": True}
+    return Setup(env=env, calls=calls, cms={"parser_context": noop_cm("parser_context")}, data=dict(env_arg=env_arg, default_env=default_env, cfg=the_cfg, stripped=stripped, skip_validation=skip_validation, keep_meta=(with_meta is True or (with_meta is None and default_meta))))
 
 
 def pc_post(ctx, st, result):
@@ -49,6 +51,9 @@ def pc_post(ctx, st, result):
     else:
         ctx.oblige("post", "skip_validation=>no-validation", not vals)
     ctx.oblige("post", "returns-that-configuration(meta stripped unless asked to keep it)", result is (d["cfg"] if d["keep_meta"] else d["stripped"]))
+    hs = [e for e in ctx.events if e[0] == "handle_subcommands"]
+    want_env = True if (d["env_arg"] is None and d["default_env"]) else d["env_arg"]
+    ctx.oblige("post", "subcommand-settings-are-completed-with-the-environment-exactly-when-it-is-enabled(argument, else the parser's default_env)", len(hs) == 1 and hs[0][1] is d["cfg"] and hs[0][2].get("env") is want_env and hs[0][2].get("defaults") is True)
     order = [e[0] for e in ctx.events if e[0] in ("apply_links", "validate")]
     ctx.oblige("post", "links-are-applied-before-validation", order in (["apply_links", "validate"], ["apply_links"]))
 
